@@ -285,6 +285,9 @@ pub mod fl {
         #[cfg_attr(kani, kani::unwind(45))] fn c13_log_values_w3_e() { log_range::<3>(7, 8, 2, 8) }
         #[cfg_attr(kani, kani::unwind(45))] fn c13_log_samples_w4_a() { log_pairs::<4>(&[(15, 3), (9, 3), (8, 3)]) }
         #[cfg_attr(kani, kani::unwind(45))] fn c13_log_samples_w4_b() { log_pairs::<4>(&[(15, 4), (15, 15), (14, 15), (15, 2), (3, 15)]) }
+        // odd widths: a base of BITS/2 + 1 bits whose square still fits (perfect squares and their neighbours)
+        #[cfg_attr(kani, kani::unwind(45))] fn c13_log_samples_w5() { log_pairs::<5>(&[(25, 5), (24, 5), (16, 4), (31, 5)]) }
+        #[cfg_attr(kani, kani::unwind(45))] fn c13_log_samples_w7() { log_pairs::<7>(&[(121, 11), (120, 11), (127, 11), (64, 8)]) }
         #[cfg_attr(kani, kani::unwind(45))] fn c13_log_samples_w8_a() { log_pairs::<8>(&[(255, 3), (243, 3), (242, 3)]) }
         #[cfg_attr(kani, kani::unwind(45))] fn c13_log_samples_w8_b() { log_pairs::<8>(&[(255, 255), (254, 255), (255, 16)]) }
         #[cfg_attr(kani, kani::unwind(45))] fn c13_log_samples_w8_c() { log_pairs::<8>(&[(225, 15), (224, 15), (100, 10)]) }
